@@ -237,15 +237,17 @@ def run_inv(exe, tmpl, workdir, backend, mode, n, tag, vto=None, timeout=1200):
             continue
         wk = os.path.join(workdir, "w_%s_%d.cgns" % (tag, j))
         args = [exe, "inv", tmpl, wk, str(mode), str(a), str(b), "0"] + ([str(vto)] if vto is not None else [])
-        procs.append(subprocess.Popen(args, stdout=subprocess.PIPE, stderr=subprocess.DEVNULL, text=True, errors="replace", cwd=workdir, env=env))
+        of = open(wk + ".out", "w")             # a file, not a pipe: the four drivers must not block on a full pipe
+        procs.append((subprocess.Popen(args, stdout=of, stderr=subprocess.DEVNULL, cwd=workdir, env=env), of, wk + ".out"))
     cases = []
-    for p in procs:
+    for p, of, path in procs:
         try:
-            out, _ = p.communicate(timeout=timeout)
+            p.wait(timeout=timeout)
         except subprocess.TimeoutExpired:
             p.kill()
-            out, _ = p.communicate()
-        cases += parse_cases(out.split("\n"))
+            p.wait()
+        of.close()
+        cases += parse_cases(open(path, errors="replace").read().split("\n"))
     return cases
 
 
